@@ -274,7 +274,7 @@ pub fn run(tier: Tier, seed: u64, known: &Known) -> PropRun {
         SAMPLED_KS.with(|c| c.set(sk));
         MAX_T.with(|c| c.set(mt));
     };
-    let part = Part { name: "expiry", cases: tier.pick(160, 4_000), min_len: 24, max_len: 700, max_shrink: 60, threads: threads() };
+    let part = Part { name: "expiry", cases: tier.pick(160, 2_000), min_len: 24, max_len: 700, max_shrink: 60, threads: threads() };
     let (st, fl) = run_part(&part, seed, known, |b, st| {
         setp();
         check(b, st)
